@@ -276,3 +276,27 @@ def replay_table_value_ownership(inputs, obl):
     if problems:
         return dict(confirmed=True, detail='T::.table(e);U::.table(e);.index(T;["a"]);c::T?"b";.insert(T;[2 99]): ' + '; '.join(problems))
     return dict(confirmed=False, detail='an insert into one table reaches neither another table built from the same columns, nor a column read earlier, nor the column list')
+
+
+def replay_index_order(inputs, obl):
+    """.index(t; cols) orders the rows by the key columns IN THE ORDER GIVEN: a two-column key named (b,a) sorts by b first"""
+    from klongpy import KlongInterpreter
+    problems = []
+    for cols, key in (('["b" "a"]', lambda r: (r[1], r[0])), ('["a" "b"]', lambda r: (r[0], r[1])), ('["b"]', lambda r: (r[1],))):
+        k = KlongInterpreter()
+        k('.py("klongpy.db")')
+        k('T::.table([["a" [1 2 3 1]] ["b" [9 5 7 2]] ["c" [10 20 30 40]]])')
+        rows = [[1, 9, 10], [2, 5, 20], [3, 7, 30], [1, 2, 40]]
+        try:
+            k(f'.index(T;{cols})')
+            k('.insert(T;[0 8 50])')
+            rows.append([0, 8, 50])
+            got = [list(map(int, r)) for r in zip(k('T?"a"'), k('T?"b"'), k('T?"c"'))]
+            want = sorted(rows, key=key)
+            if got != want:
+                problems.append(f".index(T;{cols}); insert [0 8 50]: rows come out as {got}, ordered by the key they should be {want}")
+        except Exception as e:
+            problems.append(f".index(T;{cols}) raised {type(e).__name__}: {str(e)[:80]}")
+    if problems:
+        return dict(confirmed=True, detail='; '.join(problems[:2]))
+    return dict(confirmed=False, detail='rows of a table indexed on one or two columns are ordered by those columns in the order given')
